@@ -250,6 +250,7 @@ PickQ == /\ phase = 0 /\ phase' = 1
          /\ par' \in Pars
          /\ up' \in (IF Upper THEN BOOLEAN ELSE {FALSE})
          /\ \E pc \in ProvChoices : prov' = pc[1] /\ req' = pc[2]
+         /\ (Shape = "chain" => FamilyChain')         \* (cheap, not recursive: prunes before the expensive steps)
 \* The derived values are computed in steps of their own, from UNPRIMED variables: TLC caches lazily
 \* evaluated operator arguments only outside primed contexts (measured: 50x slower otherwise).
 Derive1 == /\ phase = 1 /\ WellFormed /\ (Shape = "chain" => FamilyChain) /\ phase' = 2
